@@ -292,6 +292,12 @@ PROPS["C10"] = {
         {"file": "src/query/streaming.rs", "patterns": ["engine.execute(", "engine.execute_with_indexes(", "engine.execute_stream(", "engine.execute_planned(", "engine.execute_planned_with_indexes("],
          "allowed_units": ["streaming_operation"],
          "message": "the streaming executor evaluates its historical statement only inside the operation handed to with_metrics_table"},
+        {"file": "src/query/mod.rs", "patterns": ["engine.execute(", "engine.execute_with_indexes(", "engine.execute_stream("],
+         "allowed_units": [],
+         "message": "a query node never calls the self-planning entry points (execute / execute_with_indexes / execute_stream plan the SQL text in a critical section of their own, against whatever `metrics` is bound by then); decided even when the operation unit's anchor is lost"},
+        {"file": "src/query/streaming.rs", "patterns": ["engine.execute(", "engine.execute_with_indexes(", "engine.execute_stream("],
+         "allowed_units": [],
+         "message": "the streaming executor never calls the self-planning entry points (execute / execute_with_indexes / execute_stream plan the SQL text in a critical section of their own, against whatever `metrics` is bound by then); decided even when the operation unit's anchor is lost"},
     ],
     "verus": ["c10_isolation.rs.in", "c04_registration.rs.in"],
     "explanation": "The quantifier is over schedules; no schedule is explored. The property is reduced to a lock discipline whose every step is a per-function obligation on the real text, and the step from the discipline to all interleavings is the ASSUMED meaning of the lock: tokio::sync::Mutex gives mutual exclusion, so between this request's registration and its planning (one critical section) no other request changes what `metrics` resolves to; outside critical sections anybody may (acquire and release havoc the binding in the contracts). A planned DataFrame keeps the table provider it resolved (DataFusion: LogicalPlan::TableScan owns its source) - assumed, so execution outside the lock is not affected by later re-registration. Not covered: the pruning inputs (extract_time_range / extract_column_predicates) are planned, under the lock but in an earlier critical section, against whatever table the previous request left registered; this is sound for results only if all chunk files agree on the types of the columns a statement mentions (schema evolution across chunk sets could change a coerced literal and with it the selected chunk set). Defect F25 (the pinned tree planned after releasing the lock: wrong answers under concurrency, demonstrated) is repaired by /repo commit f9c4b52.",
